@@ -25,6 +25,7 @@ var props = []Prop{
 			{Harness: "reporting.ZZC19Utf8", Desc: "multi-byte characters: a one-line file of three characters, each arbitrary in {a, TAB, 2-byte e-acute, 3-byte euro sign, nothing}, column = byte column of any character boundary: the whole rendered message, with ONE caret cell per character before the column", Bounds: map[string]interface{}{"characters": 3, "alphabet": 5}},
 			{Harness: "reporting.ZZC19Utf8x4", Tier: "thorough", Desc: "the same with four characters", Bounds: map[string]interface{}{"characters": 4}},
 			{Harness: "reporting.ZZC19Utf8Long", Desc: "truncation never cuts a character: 308-byte line of 150 two-byte characters + ASCII text, column = byte column of ANY character: the shown piece begins and ends at character boundaries, the caret column addresses the reported character, length bound", Bounds: map[string]interface{}{"line": "150 x 2-byte + 8 ASCII", "column": "any character start"}},
+			{Harness: "reporting.ZZC19InvalidUtf8Long", Desc: "the length bound does not depend on valid UTF-8: a 400-byte line of continuation bytes only, any column 1..len+1", Bounds: map[string]interface{}{"line": "400 x 0x85"}},
 			{Harness: "reporting.ZZC19VeryLongLine", Desc: "a 70 000-byte line (beyond bufio's default token limit): diagnostic on it or on the line below, column 1..3: the reported line is shown (truncated) with its caret and the lines after it are not lost", Bounds: map[string]interface{}{"line_bytes": 70000}},
 			{Harness: "reporting.ZZC19K3Small", Desc: "ReportViolation end to end: arbitrary file content (<=7 bytes, <=2 lines, tabs), any existing diagnostic line, any column 1..len+1, 3-byte message, 2 codes: the whole rendered message equals header + numbered window + caret row repeating the line's tabs + help link",
 				Bounds: map[string]interface{}{"content_bytes": 7, "lines": "<=2", "tabs": "<=2", "msg_bytes": 3}},
